@@ -220,3 +220,38 @@ Definition quiescent (s : gst) : Prop :=
   forall o, ph (ost s o) <> PChecked /\ ph (ost s o) <> PToggled.     (* no watcher is in the middle of a first event *)
 Definition limit_ok (lim : option nat) (s : gst) : Prop :=
   match lim with None => True | Some n => forall r, nseen s r <= n end.
+
+(* ---------- boolean readings used by the trace tie (restricted to the kinds / objects that occur) ---------- *)
+Definition limit_okb (lim : option nat) (s : gst) (rs : list nat) : bool :=
+  match lim with None => true | Some n => forallb (fun r => Nat.leb (nseen s r) n) rs end.
+Definition quiescentb (s : gst) (os : list nat) : bool :=
+  forallb (fun o => negb (phase_eqb (ph (ost s o)) PChecked || phase_eqb (ph (ost s o)) PToggled)) os.
+(* the ghost flag [early] of every worker at the moment it is spawned *)
+Fixpoint gearly (lim : option nat) (s : gst) (tr : list label) : list (nat * bool) :=
+  match tr with
+  | [] => []
+  | l :: t =>
+      match gstep lim s l with
+      | Some s' => (match l with Spawn _ o _ _ => [(o, early (ost s' o))] | _ => [] end) ++ gearly lim s' t
+      | None => []
+      end
+  end.
+Definition nat_bool_eqb (a b : nat * bool) : bool := Nat.eqb (fst a) (fst b) && Bool.eqb (snd a) (snd b).
+Fixpoint list_nb_eqb (a b : list (nat * bool)) : bool :=
+  match a, b with
+  | [], [] => true
+  | x :: a', y :: b' => nat_bool_eqb x y && list_nb_eqb a' b'
+  | _, _ => false
+  end.
+(* end-of-run cross-check: watchers idle (quiescent); live workers per watcher as observed; the observed early flags;
+   and "the real gate stayed closed although everything was fed and listed" only where limit_ok fails (C17_gate_opens) *)
+Definition gcheck (lim : option nat) (tr : list label) (rs os : list nat) (live : list nat)
+           (earlies : list (nat * bool)) (judge_open real_on : bool) : bool :=
+  match grun lim ginit tr with
+  | Some s =>
+      quiescentb s os
+      && list_nb_eqb (gearly lim ginit tr) earlies
+      && forallb (fun p => Nat.eqb (nseen s (fst p)) (snd p)) (combine rs live)
+      && (negb judge_open || real_on || negb (limit_okb lim s rs))
+  | None => false
+  end.
